@@ -1,3 +1,3 @@
 From Coq Require Import Extraction ExtrOcamlBasic.
-From TatsuV Require Import Base.PyStr Engine.Value Engine.Syntax Engine.Input Engine.Engine Engine.Calls Engine.Semantics Engine.Config.
-Extraction "engine.ml" nums_witness parse_with pparse_with genparse_with rule_optimized act_of optimized next_token match_token effective.
+From TatsuV Require Import Base.PyStr Engine.Value Engine.Syntax Engine.Input Engine.Engine Engine.Gen Engine.Calls Engine.Semantics Engine.Config Engine.GenEquiv.
+Extraction "engine.ml" nums_witness parse_with pparse_with genparse_with rule_optimized act_of optimized next_token match_token effective genok.
